@@ -555,6 +555,20 @@ def ttlclass(ctx: Any) -> List[Ob]:
             if okf:
                 tvals.add(v)
         obs.append(ob(R, f, c, f'{bn} builds records of type {sorted(types)}', tvals == types, f'got {sorted(tvals)}'))
+        if bn == '_dns_addresses':
+            # which of the two: an IPv6 address gives an AAAA record, an IPv4 address an A record; the owner is the host name
+            # (the instance name only when no host was given); the rdata is the packed address of that very element
+            for ver, want_t in ((4, 1), (6, 28)):
+                got_t = fd.Evaluator(prog, f.module, {'.version': ver}).ev(te)
+                obs.append(ob(R, f, te, f'{bn}: an IPv{ver} address becomes a record of type {want_t}', got_t == want_t, f'type evaluates to {got_t}'))
+            ne = args[0]
+            if isinstance(ne, ast.Name) and _local_def(f, ne.id) is not None:
+                ne = _local_def(f, ne.id)  # type: ignore[assignment]
+            obs.append(ob(R, f, ne, f'{bn}: the owner of the address records is the host name (`self.server or self._name`)', norm(ne) == f'{me}.server or {me}._name', f'owner is `{norm(ne)}`'))
+            comp = next((x for x in walk_local_ordered(f.node) if isinstance(x, (ast.ListComp, ast.SetComp, ast.GeneratorExp)) and any(y is c for y in ast.walk(x.elt))), None)
+            lv = comp.generators[0].target.id if comp is not None and isinstance(comp.generators[0].target, ast.Name) else None
+            rd = args[4] if len(args) > 4 else None
+            obs.append(ob(R, f, rd if rd is not None else c, f'{bn}: the rdata is the packed form of the address the record is built for', lv is not None and rd is not None and norm(rd) == f'{lv}.packed' and norm(te).count(f'{lv}.version') == 1, f'rdata `{norm(rd) if rd is not None else "?"}`, element `{lv}`'))
         ce = args[2]
         if isinstance(ce, ast.Name) and _local_def(f, ce.id) is not None:
             ce = _local_def(f, ce.id)  # type: ignore[assignment]
@@ -776,6 +790,59 @@ def addl(ctx: Any) -> List[Ob]:
     return obs
 
 
+
+def address_set_obligations(ctx: Any, R: str) -> List[Ob]:
+    """The record set a service hands out for its host (additionals of its PTR / SRV answers, announcements, goodbyes): every
+    address record of the service, plus ONE NSEC record that names exactly the address types it has no record of -- present iff
+    a type is missing.  (Shared with C08.GOODBYE: the goodbye copies are built by the same routine.)"""
+    prog = ctx.prog
+    g = prog.cls(INFO).methods.get('_get_address_and_nsec_records')
+    if g is None:
+        raise AnalysisError('anchor vanished: ServiceInfo._get_address_and_nsec_records')
+    me = g.params[0]
+    cfg = cfg_of(g.node)
+    obs: List[Ob] = []
+    loops = [n for n in cfg.nodes if n.kind == 'for' and any(isinstance(c, ast.Call) and call_name(c) == '_dns_addresses' for c in ast.walk(n.ast.iter))]
+    if len(loops) != 1 or not isinstance(loops[0].ast.target, ast.Name):
+        raise AnalysisError('anchor vanished: the loop over the address records in _get_address_and_nsec_records')
+    lp = loops[0]
+    lv = lp.ast.target.id
+    ldefs = local_defs(g)
+    missing = sorted(n_ for n_, vs in ldefs.items() if any(v is not None and isinstance(v, ast.Call) and call_name(v) in ('copy', 'set') and any(prog.try_fold(g.module, x) == (True, frozenset({1, 28})) for x in ast.walk(v)) for v in vs))
+    rets = [r for r in walk_local_ordered(g.node) if isinstance(r, ast.Return) and isinstance(r.value, ast.Name)]
+    result = sorted({r.value.id for r in rets} - {n_ for n_ in ldefs if False})
+    result = [n_ for n_ in result if any(v is not None and isinstance(v, (ast.Call, ast.Set)) for v in ldefs.get(n_, []))]
+    if len(missing) != 1 or len(result) != 1:
+        raise AnalysisError(f'_get_address_and_nsec_records: cannot identify the missing-type set / the result set ({missing}, {result})')
+    mv, rv = missing[0], result[0]
+    obs.append(ob(R, g, f'{mv} = copy of {{A, AAAA}}', 'the types still missing start as both address types', True))
+
+    def eff(node: Any, evl: Any) -> List[Any]:
+        out = []
+        for c in fd.node_calls(node, evl):
+            if isinstance(c.func, ast.Attribute) and isinstance(c.func.value, ast.Name):
+                if c.func.value.id == mv and call_name(c) in ('discard', 'remove') and c.args:
+                    out.append('SEEN:' + norm(c.args[0]))
+                if c.func.value.id == rv and call_name(c) == 'add' and c.args:
+                    a = c.args[0]
+                    out.append('NSEC' if isinstance(a, ast.Call) and call_name(a) == '_dns_nsec' else 'ADD:' + norm(a))
+        return out
+
+    oc, _ = fd.run_paths(prog, g.module, cfg, {}, eff, start=lp, stop=lambda n: n is lp, loop_bound=1, for_iter=lambda n, e: True)
+    per_trip = {tuple(sorted(x for x in strip_ret(t) if isinstance(x, str))) for t in oc}
+    obs.append(ob(R, g, lp.ast, 'each address record of the service is put into the set, and its type is struck off the missing types, on every path of the loop', per_trip == {(f'ADD:{lv}', f'SEEN:{lv}.type')}, f'effects per trip: {sorted(per_trip)}'))
+    nsec_nodes = [n for n in cfg.nodes if any(call_name(c) == '_dns_nsec' for c in n.calls())]
+    tests = [t for t in cfg.nodes if t.kind == 'test' and (norm(t.ast) == mv or norm(t.ast) in (f'len({mv}) > 0', f'len({mv}) != 0', f'len({mv})', f'bool({mv})'))]
+    ok_n = len(nsec_nodes) == 1 and len(tests) >= 1 and any(cfg.only_through_edge(t, True, nsec_nodes[0]) for t in tests) and not lp.in_loop and cfg.path_avoiding(lp, lambda n: n is nsec_nodes[0], lambda n: False) is not None and nsec_nodes[0] not in [n for n in cfg.nodes if n.in_loop and lp.ast in n.in_loop]
+    added = any(x == 'NSEC' for t in fd.run_paths(prog, g.module, cfg, {}, eff, start=nsec_nodes[0], stop=lambda n: n is cfg.exit, loop_bound=1)[0] for x in t) if nsec_nodes else False
+    obs.append(ob(R, g, nsec_nodes[0].ast if nsec_nodes else '_dns_nsec', 'after all addresses were seen, one NSEC record is added to the set exactly when a type is still missing', ok_n and added, '' if ok_n and added else 'the NSEC is not added exactly under the test of the missing-type set, after the address loop'))
+    if nsec_nodes:
+        call = next(c for c in nsec_nodes[0].calls() if call_name(c) == '_dns_nsec')
+        a0 = call.args[0] if call.args else None
+        from_missing = isinstance(a0, ast.Call) and isinstance(a0.func, ast.Name) and a0.func.id in ('list', 'sorted', 'tuple') and len(a0.args) == 1 and norm(a0.args[0]) == mv
+        obs.append(ob(R, g, call, 'the NSEC names exactly the types still missing, with the TTL override it was given', from_missing and len(call.args) >= 2 and norm(call.args[1]) == g.params[1], f'arguments `{", ".join(norm(a) for a in call.args)}`'))
+    return obs
+
 @rule('C03.ADDRNSEC', 'D', expect_min=8)
 def addrnsec(ctx: Any) -> List[Ob]:
     """Address questions: per address of the host -- the asked type becomes an answer unless the querier
@@ -872,6 +939,7 @@ def addrnsec(ctx: Any) -> List[Ob]:
                 else:
                     want = ()
                 obs.append(ob(R, f, f'answers={"yes" if has_ans else "none"}, missing types={"yes" if has_miss else "none"}, asked type missing={asked_missing}', f'effects {want}', got == {want}, f'got {sorted(got)} undecided {und}'))
+    obs.extend(address_set_obligations(ctx, R))
     return obs
 
 
